@@ -99,6 +99,11 @@ def lit(t):
         return t[2]
     if t[0] == "obj" and t[2][0] == "const":
         return t[2][2]
+    # format!("text {}", CONSTANT) with only constant arguments is folded by the compiler into one constant piece: format(Arguments::from_str*(..))
+    if t[0] == "call" and t[1].rsplit("::", 1)[-1] == "format" and "fmt" in t[1] and len(t[2]) == 1:
+        a = t[2][0]
+        if a[0] == "call" and a[1].rsplit("::", 1)[-1] in ("from_str", "from_str_nonconst", "new_const") and "Arguments" in a[1] and len(a[2]) == 1:
+            return lit(a[2][0])
     return None
 
 
